@@ -171,4 +171,5 @@ PROPS = {
     "C04": {"run": c04, "level": "exploration"},
     "C06": {"run": simple, "level": "exploration"},
     "C07": {"run": simple, "level": "exploration"},
+    "C08": {"run": simple, "level": "exploration"},
 }
